@@ -124,6 +124,11 @@ pub fn prim_upgrade(wk: &Weak<Node>, target: Option<Oid>, top_level: bool) -> Op
         })
     });
     let flags = verif::state_flags().unwrap_or((false, false, false));
+    // C09: Weak::strong_count() of a live value is the number of its Ccs, wherever it is asked
+    let sc_pre = {
+        let _b = Bracket::open();
+        wk.strong_count()
+    };
     let res = {
         let _b = Bracket::open();
         wk.upgrade()
@@ -207,8 +212,13 @@ pub fn prim_upgrade(wk: &Weak<Node>, target: Option<Oid>, top_level: bool) -> Op
                         w.attempts.push(Attempt { target: t, ctx, sig, call, ev });
                     } else {
                         // nothing can excuse this one (known findings are classified by signature)
-                        let d = format!("upgrade returned None for live obj{} (shadow strong {})", t, strong);
-                        w.violation(&["C08"], "upgrade-none-on-live", sig, d, false);
+                        let d = format!("upgrade returned None for live obj{} (shadow strong {}, Weak::strong_count() {})", t, strong, sc_pre);
+                        let kf1 = sig.starts_with("upgrade-none-on-live/target-in-collector-list/");
+                        if sc_pre == 0 && !kf1 {
+                            w.violation(&["C08", "C09"], "upgrade-none-on-live", sig, d, false);
+                        } else {
+                            w.violation(&["C08"], "upgrade-none-on-live", sig, d, false);
+                        }
                     }
                 }
             }
